@@ -40,7 +40,11 @@ EXERCISED = (
     "public attribute at any moment, also during init(); strings that are equal but not "
     "identical to the library's literals; a console that is slow to read while several tasks "
     "send; frames longer than a kilobyte; a console that refuses the reconnection after a "
-    "heartbeat reset")
+    "heartbeat reset; init() called again and again (retry loops), also while a handshake is "
+    "under way; two overlapping shutdown() calls; every public sending method as the eleventh "
+    "message of a full buffer; fractional and infinite arguments; the first subscriber "
+    "arriving while a frame is incomplete; leftover legacy bytes beside the AT4 group bitmap; "
+    "host names instead of addresses for discovery")
 
 T = """You are helping to evaluate a verification harness by producing a *subtle, realistic regression* in a Python library.
 
